@@ -13,6 +13,10 @@ def run(rep: Report, repo: Repo, tier: str) -> None:
     render.rule_member_independence(rep, repo, "C09-R3m")
     from . import tables
     tables.rule_settings_plain(rep, repo, "C09-R2s")
+    protocol.rule_rejections(rep, repo, "C09-R4", kinds=["cpp_class", "cpp_member", "cpp_constructor", "cpp_attr", "cpp_end_class"])
+    # the inner-class list and the member fields are list / field elements inside the class directive: every line indented
+    from . import writer_rules
+    writer_rules.rule_line_start_indent(rep, repo, "C09-R5")
     if tier == "thorough":
         from . import trace_rules
         trace_rules.rule_class_traces(rep, repo, "C09-I")
